@@ -1,0 +1,27 @@
+//go:build verif
+
+// Contracts for gocv (see /verif/DESIGN.md). Comment-only file: takes no part in any build.
+
+package ethrpc
+
+//@ pure func net.ParseIP
+//@ pure func (net.IP).IsLoopback
+//@ pure func (net.IP).To4
+//@ pure func (net.IP).String
+//@ pure func net.SplitHostPort
+//@ pure func (*github.com/33cn/chain33/types.Chain33Config).GetModuleConfig
+//@ pure func github.com/33cn/chain33/common/utils.IsPublicIP
+
+// ---- C39: the Ethereum-compatible endpoint admits the same addresses as the other endpoints -------
+// The effective list is the one rpc.InitIPWhitelist uses: `whitelist`, or the legacy key `whitlist`
+// when the former is empty. With a non-empty effective list E a non-loopback address is admitted
+// iff E is the wildcard, or contains "0.0.0.0", or contains the (IPv4-normalised) address.
+//@ func (*httpServer).checkIPWhitelist [C39]
+//@   opt safety=assumed overflow=assumed
+//@   ensures len(ret(GetModuleConfig).RPC.Whitelist) == 0 && len(ret(GetModuleConfig).RPC.Whitlist) != 0 && !ret(IsLoopback) && !(len(ret(GetModuleConfig).RPC.Whitlist) == 1 && ret(GetModuleConfig).RPC.Whitlist[0] == "*") && result ==> exists k :: 0 <= k && k < len(ret(GetModuleConfig).RPC.Whitlist) && (ret(GetModuleConfig).RPC.Whitlist[k] == "0.0.0.0" || ret(GetModuleConfig).RPC.Whitlist[k] == (isnil(ret(To4)) ? addr : ret(String)))
+//@   ensures len(ret(GetModuleConfig).RPC.Whitelist) != 0 && !ret(IsLoopback) && !(len(ret(GetModuleConfig).RPC.Whitelist) == 1 && ret(GetModuleConfig).RPC.Whitelist[0] == "*") && result ==> exists k :: 0 <= k && k < len(ret(GetModuleConfig).RPC.Whitelist) && (ret(GetModuleConfig).RPC.Whitelist[k] == "0.0.0.0" || ret(GetModuleConfig).RPC.Whitelist[k] == (isnil(ret(To4)) ? addr : ret(String)))
+
+// nothing is served before the IP gate said yes
+//@ func (*httpServer).ServeHTTP [C39]
+//@   opt safety=assumed
+//@   assert@call ServeHTTP: ret(checkIPWhitelist)
